@@ -282,7 +282,16 @@ def rule_i(ctx):
     c02.rule_a(ctx)
     c05.recv_awaits_handler(ctx)
 
+def rule_k(ctx):
+    """shared clause group: how a due action gets executed (C10.a/d, C07.b/c)"""
+    from . import c07, c10
+    c10.rule_a(ctx)
+    c10.rule_d(ctx)
+    c07.rule_b(ctx)
+    c07.rule_c(ctx)
+
 RULES = [
+    ("C04.k", "every due action is pulled through the helper and executed once (alone or chained in a SeqFuture polled to completion)", rule_k),
     ("C04.j", "the injector never looks empty while a bucket is queued", rule_j),
     ("C04.i", "a send completes only when enqueued; the receiver runs each handler to completion", rule_i),
     ("C04.h", "a broadcast neither resolves early nor stalls: counter, waker registration, slot reuse", rule_h),
